@@ -189,6 +189,7 @@ mod harnesses {
     }
 
     /// `subscribed_conn_ids`: every connection subscribed to an event or to the service, once.
+    #[cfg(not(verif_quick))]
     #[kani::proof]
     #[kani::unwind(8)]
     fn q_c04_service_subscribed_conn_ids() {
